@@ -342,6 +342,23 @@ def gen_pairs(ck):
 ATOMS = [Opd("a", True), Opd("b", False), Opd("c", None), Opd("d", UNDEF), Opd("e", 0), Opd("g", "")]
 
 
+def gen_group_operands(ck):
+    """A parenthesised and/or/not group used as an OPERAND of a comparison: the group's value is the boolean of its truthiness
+    (so `(false or 0) == true` holds and `(true and nil) == nil` does not), whatever the operands were."""
+    atoms = [("var", a) for a in ATOMS] + [("lit", Opd("one", 1, "1")), ("lit", Opd("s", "x", "'x'"))]
+    rhs = [("lit", Opd("t", True, "true")), ("lit", Opd("f", False, "false")), ("lit", Opd("n", None, "nil")), ("var", Opd("z", 0)), ("var", Opd("h", ""))]
+    for x, y in itertools.product(atoms, repeat=2):
+        for lop in ("and", "or"):
+            for r in rhs:
+                for op in ("==", "!="):
+                    yield ["(", x, lop, y, ")", ("op", op), r]
+                    if ck.rng.random() < 0.25:
+                        yield [r, ("op", op), "(", x, lop, y, ")"]
+    for x in atoms:
+        for r in rhs:
+            yield ["(", "not", x, ")", ("op", "=="), r]
+
+
 def gen_logic(ck):
     rng = ck.rng
     atoms2 = [("lit", Opd("t", True, "true")), ("lit", Opd("f", False, "false")), ("var", Opd("n", None)), ("var", Opd("z", 0))]
@@ -465,6 +482,8 @@ def run(ck: Check) -> None:
         one(toks, "pair")
     for toks in gen_logic(ck):
         one(toks, "logic")
+    for toks in gen_group_operands(ck):
+        one(toks, "group-operand")
     ck.sample({"template": meta[len(meta) // 3][0], "data": {k: repr(v) for k, v in meta[len(meta) // 3][1].items()}, "output": meta[len(meta) // 3][2]})
     ck.sample({"template": meta[-1][0], "data": {k: repr(v) for k, v in meta[-1][1].items()}, "output": meta[-1][2]})
     mm = ck.coq_mismatches("if", IMPORTS, "run_if", "obs_eqb", "ccase", "obs", cases, expected, chunk=900)
